@@ -171,6 +171,25 @@ func runC19(args []string) int {
 				rep.sample(map[string]any{"kind": "strict-valid", "content": content, "rules": a})
 			}
 		}
+		// oracle (d) on EVERY document, both modes: the line range of a complete rule encloses the positions of its name
+		// and expression (what "the same rules with the same lines" means for a single rule)
+		if ps == "" && pr == "" {
+			for mi, rs := range [][]c19Rule{c19Rules(fs), c19Rules(fr)} {
+				for _, cr := range rs {
+					if cr.Err != 0 || cr.Type == "invalid" {
+						continue
+					}
+					for _, pos := range append(append(diags.PositionRanges{}, cr.NameP...), cr.ExprP...) {
+						if pos.Line < cr.First || pos.Line > cr.Last {
+							rep.fail(fmt.Sprint(id), fmt.Sprintf("%s mode: rule %q has lines %d-%d but its name/expr has a position on line %d",
+								[]string{"strict", "relaxed"}[mi], cr.Name, cr.First, cr.Last, pos.Line),
+								map[string]any{"content": content, "class": class, "rule": cr})
+							break
+						}
+					}
+				}
+			}
+		}
 		nr := len(c19Rules(fs)) + len(c19Rules(fr))
 		rep.count(content, nr > 0)
 		if keepCases {
